@@ -1,6 +1,7 @@
 """C11 Connection choices respect connectors in every existence scenario - structural clauses."""
 import ast
 
+from ..rules.match import FnText
 from ..model import AnalysisError, norm
 from ..cfg import build_cfg
 from ..astutil import short, call_name
@@ -28,7 +29,7 @@ def apply_shape(ctx, rule='A5'):
     if len(rets) != 1 or not isinstance(rets[0].ast.value, ast.Tuple) or len(rets[0].ast.value.elts) != 3:
         raise AnalysisError('get_mod_apply_connection_choice: unexpected return shape')
     names = [norm(e) for e in rets[0].ast.value.elts]
-    t = ' '.join(norm(s) for s in fn.body)
+    t = FnText(ctx, fn)
     defs = {nm: [s for s in walk_fn(fn) if isinstance(s, ast.Assign) and norm(s.targets[0]) == nm] for nm in names}
     rn = defs.get(names[1], [])
     ok = bool(rn) and isinstance(rn[0].value, ast.Set) and any(norm(e) == fn.params[1] for e in rn[0].value.elts)
@@ -75,11 +76,11 @@ def apply_shape(ctx, rule='A5'):
     ctx.ob(rule, fkey(f2, rule, 'validated-unless-told-not-to'), ok, f2.where,
            'a non-empty edge set is validated against the connectors of the choice before it is applied, unless '
            'validate=False was passed explicitly; an invalid set raises', detail)
-    ok = 'status_array = self._status_array.copy()' in ' '.join(norm(s) for s in f2.body)
+    ok = 'status_array = self._status_array.copy()' in FnText(ctx, f2)
     ctx.ob(rule, fkey(f2, rule, 'status-copy'), ok, f2.where,
            'the status array of the receiver is copied before the choice is marked as made', '')
     d = ctx.prog.find_method(ctx.prog.cls(DSG), 'get_for_apply_connection_choice')
-    td = ' '.join(norm(s) for s in d.body)
+    td = FnText(ctx, d)
     ok = 'self.get_for_apply_connection_choices([(choice_node, edges)], validate=validate)' in td
     ctx.ob(rule, fkey(d, rule, 'single-delegates-with-validate'), ok, d.where,
            'the single-choice variant delegates with its validate flag', '')
@@ -101,7 +102,7 @@ def existence_patterns(ctx, rule='A5p'):
     if ep is None:
         raise AnalysisError('get_assignment_encoding_args._exist_process vanished')
     ctx.touch(ep)
-    t = ' '.join(norm(s) for s in ep.body)
+    t = FnText(ctx, ep)
     ok = 'if not existence_mask[flat_idx_map[conn_node_]]' in t and 'exists[ii] = False' in t
     ctx.ob(rule, fkey(ep, rule, 'absent-connector-not-existing'), ok, ep.where,
            'a connector that is absent in the scenario is marked not existing (it gets no connection)', '')
@@ -113,7 +114,7 @@ def existence_patterns(ctx, rule='A5p'):
         'list(range(deg_min, (deg_max or deg_min) + 1))' in t
     ctx.ob(rule, fkey(ep, rule, 'open-ended-group-bounded'), ok, ep.where,
            'an open-ended combined degree is bounded by the maximum number of connections the matrix allows', '')
-    tt = ' '.join(norm(s) for s in fn.body)
+    tt = FnText(ctx, fn)
     ok = 'existence_masks = hierarchy_analyzer.get_nodes_existence(all_conn_nodes)' in tt and \
         'np.unique(existence_masks, axis=0, return_inverse=True)' in tt
     ctx.ob(rule, fkey(fn, rule, 'scenarios-from-node-existence'), ok, fn.where,
@@ -127,14 +128,14 @@ def existence_patterns(ctx, rule='A5p'):
     ctx.ob(rule, fkey(fn, rule, 'members-tracked'), ok, fn.where,
            'the members of grouping connectors take part in the existence table', '')
     ta = ctx.fn(f'{NODES}:ConnectionChoiceNode.to_assign_node')
-    t2 = ' '.join(norm(s) for s in ta.body)
+    t2 = FnText(ctx, ta)
     ok = 'nr_conn_list=deg_list' in t2 and 'min_conn=deg_min' in t2 and 'max_conn=deg_max' in t2 and \
         'repeated_allowed=connector_node.repeated_allowed' in t2
     ctx.ob(rule, fkey(ta, rule, 'connector-to-assignment-node'), ok, ta.where,
            'degree list / minimum / maximum / repeated-connection flag of the connector are what the matrix '
            'generator receives', '')
     ga = ctx.fn(f'{NODES}:ConnectionChoiceNode._get_assign_nodes')
-    t3 = ' '.join(norm(s) for s in ga.body)
+    t3 = FnText(ctx, ga)
     ok = 'for edge in self.get_excluded_edges(graph)' in t3 and \
         'if edge[0] not in src_obj_map or edge[1] not in tgt_obj_map' in t3 and \
         'excluded.append((src_obj_map[edge[0]], tgt_obj_map[edge[1]]))' in t3 and \
@@ -143,7 +144,7 @@ def existence_patterns(ctx, rule='A5p'):
            'every exclusion edge between a source and a target of the choice becomes an excluded pair of the '
            'matrix generator', '')
     cd = ctx.fn(f'{NODES}:ConnectorDegreeGroupingNode.get_combined_deg')
-    t4 = ' '.join(norm(s) for s in cd.body)
+    t4 = FnText(ctx, cd)
     ok = 'sorted(list({sum(comb) for comb in itertools.product(*deg_lists)}))' in t4 and \
         'deg_lists.append(list(range(conn_deg_min, conn_deg_max + 1)))' in t4 and \
         'deg_min_inf += sum([min(deg_list) for deg_list in deg_lists])' in t4
@@ -151,7 +152,7 @@ def existence_patterns(ctx, rule='A5p'):
            'the combined degree of a group is the set of sums of one allowed degree per member (open-ended: sum '
            'of the minima, no upper limit)', '')
     ra = ctx.fn(f'{NODES}:ConnectorDegreeGroupingNode.get_repeated_allowed')
-    ok = 'if connector.repeated_allowed' in ' '.join(norm(s) for s in ra.body)
+    ok = 'if connector.repeated_allowed' in FnText(ctx, ra)
     ctx.ob(rule, fkey(ra, rule, 'repeated-if-any-member'), ok, ra.where, '', '')
 
 
@@ -206,4 +207,7 @@ VARIANTS = [
       key='group-degree-from-existing-members'),
     V('sentinel-ignored', 'optimization/graph_processor.py',
       [("                if i_exist == -1:\n                    continue\n                i_comb_exist", "                i_comb_exist")], key='sentinel:i_exist'),
+    V('twin-rename-local-in-exist-process', 'graph/adsg_nodes.py',
+      [("                    existing_connectors = [der_conn_node for der_conn_node in derivation_nodes[conn_node_]\n                                           if existence_mask[flat_idx_map[der_conn_node]]]\n                    deg_list, deg_min, deg_max = conn_node_.get_combined_deg(existing_connectors)",
+        "                    present = [member for member in derivation_nodes[conn_node_]\n                               if existence_mask[flat_idx_map[member]]]\n                    deg_list, deg_min, deg_max = conn_node_.get_combined_deg(present)")], expect='silent'),
 ]
